@@ -196,12 +196,29 @@ def count(rep, prog, rule):
                             break
                     if e[0] == "agg" and e[2].endswith("ops::range::Range"):
                         rng = e
-            if rng and rng[4][0] == ("const", 0, "u32") and canon(rng[4][1]) == canon(
-                    ("param", f.param_index("num_parts"), "num_parts")):
-                rep.ok(rule, key, p.at, "one push per iteration of 0..num_parts")
+                    elif e[0] in ("call", "callat") and (e[2] if e[0] == "callat" else e[1]) == "new" and \
+                            "RangeInclusive" in (e[5] if e[0] == "callat" else e[4]):
+                        a_ = e[3] if e[0] == "callat" else e[2]
+                        # a..=b  has the iterations of a..b+1
+                        rng = ("agg", "adt", "ops::range::Range", None,
+                               (a_[0], ("bin", "Add", a_[1], ("const", 1, "u32"))))
+            np_ = ("param", f.param_index("num_parts"), "num_parts")
+            trips = None
+            if rng:
+                from ..engines.ranges import strip_widen
+                lo, hi = strip_widen(rng[4][0]), rng[4][1]
+                if lo[0] == "const" and isinstance(lo[1], int):
+                    # hi - lo as a linear form in num_parts
+                    from ..engines.poly import Poly, equal
+                    P = Poly(sym)
+                    trips = P.norm(canon(("bin", "Sub", hi, ("const", lo[1], "u32"))))
+                    want_ = P.norm(canon(np_))
+            if trips is not None and equal(trips, want_):
+                rep.ok(rule, key, p.at, "one push per iteration of a loop with num_parts iterations (%s)" % fmt(rng)[:60])
+            elif trips is not None:
+                rep.bad(rule, key, p.at, "the split loop iterates over %s: not num_parts iterations" % fmt(rng)[:80])
             else:
-                rep.bad(rule, key, p.at, "the split loop iterates over %s, not 0..num_parts" % (
-                    fmt(rng) if rng else "?"))
+                rep.unk(rule, key, p.at, "iteration space of the split loop not recognised")
         else:
             rv = f.defs().get(0, [])
             maps = [c for c in f.calls() if c.name.endswith("Option::<T>::map")]
